@@ -90,6 +90,21 @@ RULE = ('systems: orthogonal / tilted / general (rotated, left-handed) cells wit
         'the array of the first result; the System handed in must be bitwise unchanged; every 3rd dyadic-grid case is '
         'repeated with all lengths multiplied by 2^k, |k| <= 480 (exact: same lists required); every 7th grid case sits '
         '1-3 x 2^10..2^30 away from the coordinate origin. '
+        '"signed" (round 4): axis-aligned and LAMMPS-form cells with every sign pattern of the diagonal (a cell vector '
+        'pointing DOWN its axis, origin on the upper face) x shape (diagonal / lower triangular with every zero pattern of '
+        'the tilt factors / upper triangular / diagonal or tilted with the axes cyclically renamed) x pbc x float or dyadic '
+        'grid, 2-28 atoms with pairs placed across every periodic face; and every 4th case of EVERY generator family is '
+        'replaced by an equivalent description of the same system: mirrored through 1-3 coordinate planes (exact), Cartesian '
+        'axes renamed, cell vectors listed in another order, spanned from the far face of a vector where that is exact; the '
+        'clause "equivalent" requires the same lists for the re-described system (pairs in the tie band excepted, none on '
+        'the grids); sequence operations box_flip / mirror do the same on one object. "thresholds" (round 4): lists of exactly '
+        '1, 2, 3, 2^k-1 .. 2^k+2 (k = 7..16), 1000 k (+1), 4096 k (+1), 8192 k (+1) atoms through the load path with the listed '
+        'indices on both sides of every power of two and at the very end, last atom isolated or not (the sizes up to 2^14 and '
+        'around 2^15 / 2^16 in every run, three of the others in turn per seed, all of them thorough / after a failed '
+        'obligation); simple-cubic lattices of 2^13, 2^14, 2^15 + 1024 atoms through nlist in every run and one of 47^3, '
+        '32x32x64 = 2^16, 40x41x40, 2^15, 33x40x50, 32x64x33 in turn; "cloud": 27 x 152 atoms uniformly in a block of 3 x 3 x 3 '
+        'bins (more than 2048 candidates in ONE distance call; 27 x 304: more than 4096, thorough / after a failed '
+        'obligation), decided by numpy distances with exact integers inside 1e-9 of the cutoff. '
         'distinct = distinct canonical input line; non-trivial = at least one pair below the cutoff.')
 ASSUMPTIONS = [
     'IEEE double evaluation of dmag2 < cutoff*cutoff agrees with the exact comparison except for pairs whose exact '
@@ -116,7 +131,7 @@ TRUSTED = ['numpy arange/digitize/unique/vstack/hstack inside nlist.pyx (corresp
            'sparse oracle (chains): candidate pairs from a python dictionary of cells 1.000001 cutoffs wide holding every '
            'atom and image (float floor; cross-checked against the all-pairs oracle on every 16th small case), each '
            'candidate decided with exact integers',
-           'statement templates of nlist / unique_rows2 (text, comments and blank lines removed, indentation kept) and of '
+           'statement templates of nlist / unique_rows2 / dmag2_c (text, comments and blank lines removed, indentation kept) and of '
            'NeighborList.load / __init__ (ast.unparse) in the translator: any other statement is a broken tie',
            'exact oracle: python int arithmetic on float.as_integer_ratio inputs',
            'regular-expression template of the two growth blocks of nlist.pyx in the translator (any other shape of '
@@ -289,7 +304,8 @@ def gen_grid(rng, it):
             # keep the points inside the tilted cell: use whole cell-vector fractions that stay integral
             pts = [(np.array([rng.choice([0, 1]) for _ in range(3)]) @ vi + np.array(oi)).tolist() for _ in range(n)]
         case = _case(vi, oi, pts, pbc, rng.choice([1.0, 1.5, 2.0, 2.5]), 'grid', rng.randint(1, 25), rng.randint(1, 25))
-        case['dtype'] = 'int64'
+        nonneg = all(x >= 0 for p in pts for x in p)
+        case['dtype'] = rng.choice(['int64', 'int32', 'uint8', 'uint16'] if nonneg else ['int64', 'int32', 'int16', 'int8'])
     return case
 
 
@@ -1275,7 +1291,9 @@ def _system(case):
         else:                       # not representable in that dtype: keep float64 (a generator slip, not an observation)
             case.pop('dtype')
     atoms = am.Atoms(pos=pos)
-    system = am.System(atoms=atoms, box=box, pbc=tuple(case['pbc']))
+    # the periodicity flags as python bools / ints / numpy booleans (System turns them into a boolean array)
+    pbc = [tuple(case['pbc']), [int(p) for p in case['pbc']], tuple(np.bool_(p) for p in case['pbc'])][len(pos) % 3]
+    system = am.System(atoms=atoms, box=box, pbc=pbc)
     # the implementation works on what the objects hold (Box zeroes terms below 1e-9 of its largest one): model and
     # oracle are given exactly that state
     vb = np.array(system.box.vects, dtype=float).tolist()
@@ -3669,26 +3687,37 @@ def gen_threshold_rows(rng, n):
 
 
 def cloud_system(seed, per_bin, pbc):
-    """`27 per_bin` atoms uniformly in a cube of three cutoffs (a 3 x 3 x 3 block of bins wherever the bin edges
-    fall): an atom of the middle bin is compared with the ~ 14 per_bin atoms of its own bin and of the 13 stencil bins in
-    ONE call of the distance routine - more than 2048 (per_bin = 150) or 4096 (per_bin = 300) candidates at once -
-    while only ~ 4.2 per_bin of them are neighbors.  The cube sits in a cell of 3.2 cutoffs (periodic images then
-    fill the outer bins as well) or, without periodic directions, of 7 cutoffs."""
+    """`27 per_bin` atoms uniformly in a block of 3 x 3 x 3 cutoff-sized bins: an atom of the middle bin is compared with
+    the ~ 14 per_bin atoms of its own bin and of the 13 stencil bins in ONE call of the distance routine - more than 2048
+    (per_bin = 152) or 4096 (per_bin = 304) candidates at once - while only ~ 4.2 per_bin of them are neighbors.  As the
+    sweep walks through the atoms u of a bin the candidate count falls from c - 1 to c - (atoms in the bin); with c
+    about 14 per_bin in the middle bins that window (13 .. 14 per_bin) contains 2049 resp. 4097 (block size + 1), and
+    the outer bins of the block (fewer filled stencil bins) give windows further down.  Along a
+    non-periodic direction the cell is 7 cutoffs wide and the block starts on the third bin edge of the superbox as the
+    source computes it (lowest corner - 1.01 cutoff + 3 cutoffs); along a periodic direction the cell is exactly 3
+    cutoffs wide and filled completely (the images fill the outer bins).  The third cell vector points down its axis
+    in half of the cases."""
     np = _np()
     rng = random.Random(seed)
     c = rng.uniform(0.7, 1.9)
-    per = any(pbc)
-    edge = (3.2 if per else 7.0) * c
-    v = np.diag([edge] * 3)
-    v[1, 0] = rng.uniform(-0.1, 0.1) * c
+    L = [(3.0 if pbc[j] else 7.0) * c for j in range(3)]
+    v = np.diag(L)
+    if not any(pbc):
+        v[1, 0] = rng.uniform(-0.1, 0.1) * c
     if rng.random() < 0.5:
         v[2] = -v[2]                                  # third vector pointing down its axis
     origin = np.array([rng.uniform(-3, 3) for _ in range(3)])
     n = 27 * per_bin
     gen = np.random.default_rng(seed)
-    lo = 0.5 * (edge - 3.0 * c) / edge
-    rel = lo + gen.random((n, 3)) * (3.0 * c / edge)
-    pos = rel @ v + origin
+    U = gen.random((n, 3))
+    corners = np.array([[x, y, z] for x in (0, 1) for y in (0, 1) for z in (0, 1)], dtype=float) @ v + origin
+    pos = np.empty((n, 3))
+    for j in range(3):
+        if pbc[j]:
+            pos[:, j] = origin[j] + U[:, j] * v[j, j]
+        else:
+            lo = float(corners[:, j].min()) - 1.01 * c + 3.0 * c
+            pos[:, j] = lo + (1e-9 + U[:, j] * (1.0 - 2e-9)) * 3.0 * c
     return _case(v, origin.tolist(), pos, pbc, c, 'float', 20, 10)
 
 
@@ -3700,7 +3729,7 @@ def check_cloud(ctx, seed, per_bin, pbc, init, delta):
     payload = {'op': 'cloud', 'seed': seed, 'per_bin': per_bin, 'pbc': list(pbc), 'init': init, 'delta': delta}
     case = cloud_system(seed, per_bin, pbc)
     n = len(case['pos'])
-    desc = (f'{n} atoms uniformly in a cube of 3 cutoffs (about {14 * per_bin} candidates per distance call; cutoff '
+    desc = (f'{n} atoms uniformly in a block of 3 x 3 x 3 cutoff-sized bins (about {14 * per_bin} candidates per distance call; cutoff '
             f'{case["cutoff"]!r}, pbc {list(pbc)}, initialsize {init}, deltasize {delta}, replay seed {seed})')
     try:
         system = _system(case)
@@ -3782,7 +3811,7 @@ def scale_checks(ctx, rng, tmpdir, broken):
         check_large_rows(ctx, n, rows, tmpdir)
         if len(ctx.violations) >= 6:
             return
-    for _ in range(ctx.n(2, 12) * (2 if broken else 1)):
+    for _ in range(ctx.n(1, 12) * (2 if broken else 1)):
         n, rows = gen_large_rows(rng)
         check_large_rows(ctx, n, rows, tmpdir)
         if len(ctx.violations) >= 6:
@@ -3809,9 +3838,9 @@ def scale_checks(ctx, rng, tmpdir, broken):
     # more than 2048 candidates in one distance call in every run (at most one periodic direction: the distance routine
     # then looks at 1 or 3 images per candidate, not 27), more than 4096 in a thorough run or after a failed obligation
     few = [p for p in ALL_PBC if sum(p) <= 1]
-    clouds = [(rng.randrange(10 ** 6), 150, few[rng.randrange(4)], 20, 10)]
+    clouds = [(rng.randrange(10 ** 6), 152, few[rng.randrange(4)], 20, 10)]
     if ctx.thorough or broken:
-        clouds.append((rng.randrange(10 ** 6), 300, few[rng.randrange(4)] if ctx.thorough else (False, False, False), 40, 200))
+        clouds.append((rng.randrange(10 ** 6), 304, few[rng.randrange(4)] if ctx.thorough else (False, False, False), 40, 200))
     for seed, per_bin, pbc, init, delta in clouds:
         _trace({'op': 'cloud', 'seed': seed, 'per_bin': per_bin, 'pbc': list(pbc), 'init': init, 'delta': delta})
         check_cloud(ctx, seed, per_bin, pbc, init, delta)
@@ -4301,10 +4330,13 @@ MANIFEST = {
             'are the strict modelled ones, coord / [i] are column 0 / the columns from 1 cut at coord (src_reals_double, '
             'src_scalars_as_modelled, getitem_as_modelled); the specification and, for atoms inside the cell, the computed '
             'lists are unchanged when every length is multiplied by s > 0 or the whole system is translated '
-            '(spec_scale_invariant, nlist_scale_invariant, spec_translate_invariant, nlist_translate_invariant); a cutoff '
+            '(spec_scale_invariant, nlist_scale_invariant, spec_translate_invariant, nlist_translate_invariant), mirrored '
+            'through coordinate planes (any sign pattern of the Cartesian components: negative diagonal entries, left-handed '
+            'cells), spanned from the far face of any cell vectors, its vectors listed in another order or its axes renamed '
+            '(spec_/nlist_ mirror_, farface_, reorder_, axes_invariant); a cutoff '
             'above the Frobenius norm of a sheared cell does not make all pairs neighbors (example). Tie: translator (growth '
             'blocks, declared C types, scalar expressions and tests, dump formats, build / __getitem__, and every other '
-            'statement of nlist / unique_rows2 / NeighborList.load / __init__ pinned) + differential correspondence with the real '
+            'statement of nlist / unique_rows2 / dmag2_c / NeighborList.load / __init__ pinned) + differential correspondence with the real '
             'NeighborList / System.neighborlist / nlist on identical rational inputs (rows, coord, storage width, dumped '
             'text, re-loaded rows, whole operation sequences on one object).',
     'note': 'Trusted: Lean kernel + propext/Classical.choice/Quot.sound; the correspondence harness; numpy '
